@@ -51,12 +51,7 @@ def _convert_var_specs(
     processed: dict[str, RangeSpec | SequenceSpec | FromContext] = {}
     for var, spec in raw.items():
         if isinstance(spec, list):
-            if len(spec) == 2 and all(isinstance(x, (int, float)) for x in spec):
-                processed[var] = RangeSpec(
-                    lo=float(spec[0]), hi=float(spec[1]), steps=10
-                )
-            else:
-                processed[var] = SequenceSpec(spec)
+            processed[var] = SequenceSpec(spec)
             continue
         if not isinstance(spec, dict):
             raise ValueError(f"Variable '{var}' must be a list or dict specification")
